@@ -10,11 +10,12 @@ import (
 // Kinds of choice points. A deviation is a non-default choice that costs; the
 // explorer bounds the number of deviations per kind.
 const (
-	KSched = "sched" // thread to run next (deviation = preemption of a runnable thread)
-	KMap   = "map"   // iteration order of one map range (deviation = non-canonical order)
-	KFault = "fault" // injected environment fault / crash (deviation = any fault)
-	KEnv   = "env"   // benign environment answer menu (deviation = non-default answer)
-	KFree  = "free"  // alternatives cost nothing (completion orders, blocked-thread switches)
+	KSched  = "sched"  // thread to run next (deviation = preemption of a runnable thread)
+	KMap    = "map"    // iteration order of one map range (deviation = non-canonical order)
+	KFault  = "fault"  // injected environment fault / crash (deviation = any fault)
+	KEnv    = "env"    // benign environment answer menu (deviation = non-default answer)
+	KSwitch = "switch" // thread to run next when the running thread blocked or ended (deviation = not the lowest enabled id)
+	KFree   = "free"   // alternatives cost nothing (harness choices such as completion orders)
 )
 
 // Point is one executed choice point.
@@ -62,14 +63,14 @@ func Choose(n int, kind, site string) int {
 	if x == nil || n <= 1 || x.Aborted {
 		return 0
 	}
-	if kind != KSched && kind != KFree && !x.kinds[kind] {
+	if kind != KSched && kind != KSwitch && kind != KFree && !x.kinds[kind] {
 		return 0
 	}
 	return x.choose(n, kind, site)
 }
 
 func (x *Exec) choose(n int, kind, site string) int {
-	if x.noSched && (kind == KSched || kind == KFree) {
+	if x.noSched && (kind == KSched || kind == KSwitch) {
 		return 0
 	}
 	i := len(x.Choices)
@@ -262,7 +263,7 @@ func (x *Exec) handoff() {
 	}
 	c := 0
 	if len(en) > 1 {
-		c = x.choose(len(en), KFree, "thread-exit")
+		c = x.choose(len(en), KSwitch, "thread-exit")
 		if x.Aborted {
 			x.handoff()
 			return
@@ -360,7 +361,7 @@ func (x *Exec) schedPoint(pred func() bool, what string) {
 	if len(en) > 1 {
 		kind := KSched
 		if en[0] != t {
-			kind = KFree // the running thread is blocked: switching is not a preemption
+			kind = KSwitch // the running thread is blocked: switching is not a preemption
 		}
 		c = x.choose(len(en), kind, what)
 		if x.Aborted {
@@ -447,4 +448,3 @@ func shortStack() string {
 	}
 	return strings.Join(out, "\n")
 }
-
